@@ -394,7 +394,7 @@ def observers(r, sels, force=False):
             o = r.choice(OBSERVERS)
             b.tags.append(o)
             if o == "cloneobs":
-                b.op("clone 0 9")
+                b.op(r.choice(("clone 0 9", "clonefrom 0 9")))
                 b.op(f"append 9 {hexbytes(rbytes(r, r.randrange(0, 40)))}")   # diverge the clone
                 if r.random() < 0.5:
                     b.op(f"fin 9 {r.choice((64, 128, 256))}")
@@ -405,8 +405,14 @@ def observers(r, sels, force=False):
     c0 = b.op("ckpt 0")
     c1 = b.op("ckpt 1")
     b.eq(c0, c1, "observer calls changed the state of the hasher")
-    # clone is identical at the moment of cloning and independent afterwards
-    b.op("clone 0 2")
+    # clone is identical at the moment of cloning and independent afterwards; `clone_from` into a used
+    # destination (with its own pending bytes) must be the same as a fresh clone
+    if r.random() < 0.6:
+        b.op(f"{nw} 2 {sel} {kstr(rkey(r))}")
+        b.op(f"append 2 {hexbytes(rbytes(r, r.choice((1, 5, 13, 31, 33, 40))))}")
+        b.op("clonefrom 0 2")
+    else:
+        b.op("clone 0 2")
     c2 = b.op("ckpt 2")
     b.eq(c0, c2, "clone differs from the original at the moment of cloning")
     da = rbytes(r, r.randrange(0, 70))
